@@ -3,6 +3,8 @@
 package props
 
 import (
+	"time"
+
 	"github.com/csgura/fp"
 	jfx "github.com/csgura/fp/test/verifjsonfix"
 )
@@ -11,7 +13,7 @@ import (
 // repository (harness/c15fixture/fix.go.txt -> test/verifjsonfix). Values avoid what encoding/json itself cannot
 // round-trip behind the generated tags: empty-but-non-nil slices and maps under omitempty, ints inside `any`,
 // the field tagged json:"-".
-const c15FixN = 6
+const c15FixN = 7
 
 func c15Fixture(c *c15ctx, kind int, s1, s2 string, i1, i3 int, preDef bool) {
 	r := c.r
@@ -114,6 +116,15 @@ func c15Fixture(c *c15ctx, kind int, s1, s2 string, i1, i3 int, preDef bool) {
 			pre = jfx.EmbeddingMutable{Meta: jfx.Meta{ID: "preID", Version: 3}, Id: "preid", Name: "pre"}.AsImmutable()
 		}
 		c15Run(c, v, pre, jfx.EmbeddingMutable{Id: "o"}.AsImmutable(), any(v.AsMutable()), true, true)
+	case 6:
+		c.name = "@fp.Json fixture Stamped (embeds time.Time, a type with its own MarshalJSON)"
+		v := jfx.StampedMutable{Time: time.Unix(int64(i3)*977, 0).UTC(), Label: s1, Count: i1}.AsImmutable()
+		pre := jfx.Stamped{}
+		if preDef {
+			pre = jfx.StampedMutable{Time: time.Unix(5, 0).UTC(), Label: "pre", Count: 1}.AsImmutable()
+		}
+		// no twin comparison: the twin embeds time.Time too and therefore encodes the same way
+		c15Run(c, v, pre, jfx.StampedMutable{Label: "o"}.AsImmutable(), nil, false, true)
 	default:
 		c.name = "@fp.Json fixture Outer (nested @fp.Json values, slices and maps of them)"
 		m := jfx.OuterMutable{Inner: plain(s1, i1), Wo: withOpt(i3)}
